@@ -19,7 +19,7 @@
 (***************************************************************************)
 EXTENDS Fitch
 CONSTANTS K,            \* fundamental states 0..K-1, gap = K
-          MaxLeaves, MaxLeaves2, Cells1, Cells2, Weights, FullLeaves, RootMinLeaves,
+          MaxLeaves, MaxLeaves2, LargerFirstFrom, Cells1, Cells2, Weights, FullLeaves, RootMinLeaves,
           SMLeaves, SMLeaves2, SMCells1, SMCells2, SMWeights, MaxOps, Shipped
 VARIABLES p, nc, mat, g, cache, res, nops
 vars == <<p, nc, mat, g, cache, res, nops>>
@@ -36,7 +36,10 @@ CellsSAGM == {{0}, {1}, {1, 2}, {3}, {0, 1, 2, 3}}
 \* the matrix is built row by row (one TLC step per taxon) so that the bulk of the domain is generated
 \* and checked by all workers; the invariants speak about complete inputs only
 TL == Cardinality(Leaves(g))
-InitT == /\ \E L \in 2..MaxLeaves : \E pp \in BifParents(L) : p = pp /\ g = BifTree(pp, [i \in 1..L |-> i])
+\* (shapes with LargerFirstFrom or more leaves: one representative per child order - their other child orders
+\*  are reached through the rotations checked in ThmTable)
+InitT == /\ \E L \in 2..MaxLeaves : \E pp \in (IF L >= LargerFirstFrom THEN BifParentsLargerFirst(L) ELSE BifParents(L)) :
+                p = pp /\ g = BifTree(pp, [i \in 1..L |-> i])
          /\ nc \in {1, 2} /\ (nc = 2 => NumLeavesOfParents(p) <= MaxLeaves2) /\ mat = <<>>
          /\ cache = 0 /\ res = 0 /\ nops = 0
 AddRow == /\ Len(mat) < TL
@@ -91,8 +94,12 @@ ThmRootInvariant == Complete => LET t == T0  m == M0  hs == MovedTrees(t)  deep 
 \* the conjunction of the five statements above with the brute-force minima shared between them (each
 \* MinCost is evaluated once per input instead of once per statement).  This is what the registered
 \* configurations check; MC_Fitch_diag.cfg checks the statements one by one (to name the failing one).
-ThmTable == Complete => LET t == T0  m == M0  hs == MovedTrees(t)  deep == TL <= RootMinLeaves IN
-    \A gm \in BOOLEAN :
+ExtraRowCells == {{0}, {K}, 0..K}
+ThmTable == Complete => LET t == T0  m == M0  deep == TL <= RootMinLeaves
+                            bs == BasalForms(p, [i \in 1..TL |-> i])       \* the same tree held with a trifurcating seed
+                            hs == MovedTrees(t) \cup bs IN
+    /\ \A b \in bs : TreeClass(b) = "ok" /\ IsBasalTrifurcation(b) /\ SameUnrootedTree(t, b)
+    /\ \A gm \in BOOLEAN :
       LET mc == MinByChar(t, m, gm)
           fc == FitchByChar(t, m, gm)
           S == Universe(m, gm)
@@ -103,8 +110,13 @@ ThmTable == Complete => LET t == T0  m == M0  hs == MovedTrees(t)  deep == TL <=
       /\ \A w \in WeightVecs(nc) :                                                    \* ThmScoreOp
            LET r == Scored(c, nc, w) IN
            r.bychar = Weighted(mc, w) /\ r.score = SumSeq(Weighted(mc, w)) /\ SumSeq(r.bychar) = r.score /\ ~r.over
-      /\ \A j \in 1..nc : \A h \in hs :                                               \* ThmRootInvariant
+      /\ \A j \in 1..nc : \A h \in hs :                                               \* ThmRootInvariant (all rootings)
            FitchScore(h, Col(m, j, gm)) = fc[j] /\ (deep => MinCost(h, Col(m, j, gm), S) = mc[j])
+      \* rows of taxa that are not on the tree do not count: the minimum is over the tree's leaves
+      /\ \A x \in ExtraRowCells :
+           LET mx == [k |-> K, rows |-> Append(mat, [j \in 1..nc |-> x])] IN
+           /\ PassCounts(t, LeafSetsUsed(t, NoCache(t), mx, gm, Shipped), nc) = c
+           /\ (deep => MinByChar(t, mx, gm) = mc)
 
 \* ------------------------------------------------------------------ SpecS
 SMMatrices == UNION {[1..L -> [1..1 -> SMCells1]] : L \in 2..SMLeaves} \cup UNION {[1..L -> [1..2 -> SMCells2]] : L \in 2..SMLeaves2}
@@ -116,7 +128,7 @@ InitS == /\ \E L \in 2..SMLeaves : \E pp \in BifParents(L) : g = BifTree(pp, [i 
          /\ res = <<>> /\ nops = 0 /\ p = 0 /\ nc = 0 /\ mat = 0
 Score(rows, w, gm) ==
     /\ nops < MaxOps
-    /\ Len(rows) = Cardinality(Leaves(g))
+    /\ Len(rows) >= Cardinality(Leaves(g))                 \* rows of taxa that are not on the tree are allowed
     /\ Len(w) \in {0, Len(rows[1])}
     /\ LET m == [k |-> K, rows |-> rows]
            r == ScoreOp(g, cache, m, w, gm, Shipped) IN
